@@ -99,8 +99,15 @@ class LastPos:
 
   @classmethod
   def _from_string(cls, string, valid=False):
-    if string[-1] == "$":
-      return cls(int(string[:-1]), valid=valid)
+    if len(string) == 0:
+      raise gfapy.FormatError("LastPos value cannot be an empty string")
+    elif string[-1] == "$":
+      try:
+        v = int(string[:-1])
+      except:
+        raise gfapy.FormatError(
+            "LastPos value has a wrong format: {}".format(string))
+      return cls(v, valid=valid)
     else:
       try:
         v = int(string)
